@@ -51,11 +51,16 @@ class Body:
                 self.succ.append([])
             else:
                 self.succ.append([s for s in dict.fromkeys(succs_of(b["term"])) if not self.blocks[s]["cleanup"]])
+        self._reach0 = None
+        # predecessors are the *reachable* ones: blocks that inlining / jump threading (or rustc) left without a way in must not take part in any
+        # dataflow over predecessors
+        live = self.reach(0)
         self.pred = [[] for _ in range(self.n)]
         for i, ss in enumerate(self.succ):
+            if i not in live:
+                continue
             for j in ss:
                 self.pred[j].append(i)
-        self._reach0 = None
         self._dom = None
         self._edge_dom_cache = {}
 
@@ -321,6 +326,70 @@ def _inline_call(c, bi, h, arg_ops):
         c["blocks"].append(hb)
 
 
+def _thread_returns(c, first_new, cont, dest, adt_discr):
+    """Jump threading after inlining: the inlined callee ends in blocks that assign the call's destination a known variant / constant and jump to the
+    continuation, which does nothing but test that discriminant / flag (`match helper() { A => .., B => .. }`, `if helper() { .. }`).  Each such block is sent
+    straight to the arm its value selects (through a copy of the continuation's discriminant read), so that the control-flow graph has no path on which
+    the helper returned A and the caller went on in arm B.  Nothing is threaded unless the shape is exactly that."""
+    import copy
+    if cont is None or dest["proj"]:
+        return 0
+    cb = c["blocks"][cont]
+    t = cb["term"]
+    if t["k"] != "switch":
+        return 0
+    opl = t["op"].get("move") or t["op"].get("copy")
+    if opl is None or opl["proj"]:
+        return 0
+    flag_test = opl["l"] == dest["l"] and not cb["stmts"]
+    discr_test = (len(cb["stmts"]) == 1 and cb["stmts"][0]["rv"]["k"] == "discr" and cb["stmts"][0]["rv"]["p"] == dest
+                  and cb["stmts"][0]["place"] == {"l": opl["l"], "proj": []})
+    if not (flag_test or discr_test):
+        return 0
+
+    def value_of(blk):
+        """discriminant / constant the block leaves in dest (its last assignment to dest), or None"""
+        v = None
+        for st in blk["stmts"]:
+            if st["place"]["l"] == dest["l"]:
+                if st["place"]["proj"]:
+                    v = None
+                    continue
+                rv = st["rv"]
+                v = None
+                if rv["k"] == "agg" and isinstance(rv["kind"], dict) and "vi" in rv["kind"] and discr_test:
+                    v = adt_discr(rv["kind"].get("adt"), rv["kind"]["vi"])
+                elif rv["k"] == "use" and "const" in rv["a"] and rv["a"]["const"].get("int") is not None and flag_test:
+                    v = int(rv["a"]["const"]["int"])
+        return v
+
+    arms = {int(v): b for v, b in t["arms"]}
+    n = 0
+    new_blocks = list(range(first_new, len(c["blocks"])))
+
+    def leads_to_cont(i, depth=0):
+        """block i reaches the continuation through empty `goto` blocks only"""
+        if i == cont:
+            return True
+        if depth > 8 or i < first_new:
+            return False
+        bl = c["blocks"][i]
+        return not bl["stmts"] and bl["term"]["k"] == "goto" and leads_to_cont(bl["term"]["t"], depth + 1)
+    for p_ in new_blocks:
+        pb = c["blocks"][p_]
+        if pb["term"]["k"] != "goto" or not leads_to_cont(pb["term"]["t"]):
+            continue
+        v = value_of(pb)
+        if v is None:
+            continue
+        tgt = arms.get(v, t["otherwise"])
+        nb = {"cleanup": False, "stmts": copy.deepcopy(cb["stmts"]), "term": {"k": "goto", "t": tgt}}
+        c["blocks"].append(nb)
+        pb["term"] = {"k": "goto", "t": len(c["blocks"]) - 1}
+        n += 1
+    return n
+
+
 def _closure_behind(c, op, depth=0):
     """the closure aggregate a call operand holds, when that is decided by single assignments inside raw body `c` (moves, copies and shared borrows of
     locals are followed); returns the closure's path or None"""
@@ -370,6 +439,16 @@ def splice_new_helpers(d, reference):
     if reference is None:
         return []
     bodies = {b["path"]: b for b in d["bodies"]}
+    adts = {a["path"]: a for a in d.get("adts", [])}
+
+    def adt_discr(path, vi):
+        a = adts.get(path)
+        if a is not None and vi < len(a["variants"]) and a["variants"][vi].get("discr") is not None:
+            return int(a["variants"][vi]["discr"])
+        if path in ("std::option::Option", "core::option::Option", "std::result::Result", "core::result::Result"):
+            return vi
+        return None
+
     def is_helper(b):
         return (b["kind"] in ("Fn", "AssocFn") and b["path"] not in reference and b["vis"] != "pub" and not b["file"].startswith("/")
                 and b.get("in_trait") is None and b.get("impl_trait") is None and len(b["blocks"]) <= 400)
@@ -392,7 +471,9 @@ def splice_new_helpers(d, reference):
                 if len(t["args"]) != h["nargs"]:
                     continue
                 nb = len(c["blocks"])
+                cont_, dest_ = t.get("ret"), t["dest"]
                 _inline_call(c, bi, h, list(t["args"]))
+                _thread_returns(c, nb, cont_, dest_, adt_discr)
                 for _ in range(3):
                     if not _inline_closure_calls(c, bodies, nb):
                         break
